@@ -395,6 +395,20 @@ Instantiate(M, store, binds) ==
                ELSE [st4 EXCEPT !.tables[taddr] = ApplyElems(M, st4, gs.g, st4.tables[taddr], inst, 1)]
     IN  [st5 EXCEPT !.insts = @ \o <<[mem |-> maddr, table |-> taddr, globals |-> gs.g, dropped |-> {}]>>]
 
+\* <module>NewChild(parent): a further instance of the same module made from a live one (what
+\* wasi thread-spawn uses).  It is an instantiation with the imports bound to what the resolver
+\* returns (the parent's objects), except that a SHARED defined memory is the parent's memory
+\* rather than a fresh one; active segments are applied again and the start function runs again.
+InstantiateChild(M, store, p) ==
+    LET I    == store.insts[p]
+        ngi  == Len(I.globals) - Len(M.globals)
+        keep == M.memory.present /\ M.memory.shared
+        M2   == IF keep THEN [M EXCEPT !.memory.present = FALSE] ELSE M
+    IN  Instantiate(M2, store,
+                    [mem     |-> IF M.memory.present /\ ~keep THEN 0 ELSE I.mem,
+                     table   |-> IF M.table.present THEN 0 ELSE I.table,
+                     globals |-> SubSeq(I.globals, 1, ngi)])
+
 \* Segments must lie inside their memory / table, otherwise instantiation fails in the
 \* specification (and is outside what the properties quantify over).
 SegmentsInBounds(M, store, inst) ==
